@@ -758,5 +758,15 @@ class ProgGen:
                 bad = sig.name
             else:
                 bad = f"{prefix}fn{bad_fn}"
+        # a chain of thin wrappers around the failing definition: checking dep2 fails at
+        # dependency depth 2 with nothing else pending (the failing body is the last item
+        # of the engine's worklist), checking dep1 at depth 1
+        lit = {"int": "1", "bool": "True", "float": "1.5", "tuple[int, bool]": "(1, True)"}
+        bsig = next((x for x in sigs if x.name == bad and x.kind == "fn"), None) if bad else None
+        if bsig is not None and all(t in lit for _, t in bsig.params) and ch.draw(3, "dep_chain"):
+            args = ", ".join(lit[t] for _, t in bsig.params)
+            src += ["@guppy", f"def {prefix}dep1() -> None:", f"    {bad}({args})", "",
+                    "@guppy", f"def {prefix}dep2() -> None:", f"    {prefix}dep1()", ""]
+            defs += [f"{prefix}dep1", f"{prefix}dep2"]
         return {"source": "\n".join(src) + "\n", "defs": defs, "entry": sig.name,
                 "families": [k for k, v in fams.items() if v], "bad_def": bad}
